@@ -182,7 +182,7 @@ func (consumer *Consumer) Stop() {
 	}
 	consumer.status = stopped
 	consumer.statusLock.Unlock()
-	consumer.queue.RemoveConsumer(consumer.ConsumerTag)
+	consumer.queue.RemoveConsumerInstance(consumer)
 	close(consumer.consume)
 }
 
